@@ -2,8 +2,8 @@ package props
 
 import (
 	"fmt"
-	"os"
 	"math/big"
+	"os"
 	"sort"
 	"strings"
 	"testing"
